@@ -239,6 +239,7 @@ fn main() {
         }
         Some("c17seeds") => c17::seeds(),
         Some("c19api") => c19api::run(),
+        Some("c02keydocs") => c02keydocs(),
         _ => {
             eprintln!("usage: vh-api select|subsets|real|wire|xmatrix");
             std::process::exit(2);
@@ -246,3 +247,33 @@ fn main() {
     }
 }
 
+
+
+/// C02 known answers for key documents (feature ring-compat): a PKCS#8 v1 document and the document ring writes, for seeds
+/// with and without the bytes A1 23 03 21 in them, must load and sign like the key made from the seed itself would
+/// (public key compared with the one in the document's own tail / derived by the check's reference implementation).
+fn c02keydocs() {
+    use ruma_signatures::{Ed25519KeyPair, KeyPair};
+    let marker = [0xa1u8, 0x23, 0x03, 0x21];
+    let mut seeds: Vec<(String, [u8; 32])> = vec![("plain".into(), [7u8; 32])];
+    for pos in [0usize, 13, 28] {
+        let mut s = [9u8; 32];
+        s[pos..pos + 4].copy_from_slice(&marker);
+        seeds.push((format!("marker-at-{pos}"), s));
+    }
+    for (name, seed) in seeds {
+        // PKCS#8 v1: 30 2e 02 01 00 30 05 06 03 2b 65 70 04 22 04 20 <seed>
+        let mut v1 = vec![0x30, 0x2e, 0x02, 0x01, 0x00, 0x30, 0x05, 0x06, 0x03, 0x2b, 0x65, 0x70, 0x04, 0x22, 0x04, 0x20];
+        v1.extend(seed);
+        let base = std::panic::catch_unwind(|| Ed25519KeyPair::from_der(&v1, "1".into()).ok().map(|k| k.public_key().to_vec())).unwrap_or(None);
+        println!("{}", json!({"kat": format!("key-document/v1/{name}"), "got": base.is_some(), "want": true}));
+        let Some(public) = base else { continue };
+        // the document ring writes: 30 53 02 01 01 30 05 06 03 2b 65 70 04 22 04 20 <seed> a1 23 03 21 00 <public key>
+        let mut ring = vec![0x30, 0x53, 0x02, 0x01, 0x01, 0x30, 0x05, 0x06, 0x03, 0x2b, 0x65, 0x70, 0x04, 0x22, 0x04, 0x20];
+        ring.extend(seed);
+        ring.extend([0xa1, 0x23, 0x03, 0x21, 0x00]);
+        ring.extend(&public);
+        let got = std::panic::catch_unwind(|| Ed25519KeyPair::from_der(&ring, "1".into()).ok().map(|k| k.public_key().to_vec())).unwrap_or(None);
+        println!("{}", json!({"kat": format!("key-document/ring/{name}"), "got": got.as_deref() == Some(&public[..]), "want": true}));
+    }
+}
